@@ -464,7 +464,7 @@ fn main() {
         let mut aborted_n = 0u64;
         for fr in ["ch", "cl"] {
             for len in [5usize, 20000] {
-                for cut in ["10", "h0", "h1", "h3", "h4000", "h8197", "e8", "e5", "e3", "e1"] {
+                for cut in ["0", "10", "h0", "h1", "h3", "h4000", "h8197", "e8", "e5", "e3", "e1"] {
                     for seg in [0usize, 4096] {
                         for method in ["GET", "POST"] {
                             if seg == 4096 && (len == 5 || method == "POST") {
@@ -475,6 +475,7 @@ fn main() {
                             sport = if sport >= 39000 { 36000 } else { sport + 1 };
                             let target = format!("/abort?id={id}&st=200&len={len}&fr={fr}&seg={seg}&cut={cut}");
                             let raw = build_request(method, &target, &[("Host", b"h")], if method == "POST" { Some(b"req-body") } else { None }, None);
+                            let cur_abort = w.hosts.ws.cursor();
                             let resp = match w.connect(Some(sport), Some(&rec)) {
                                 Ok(mut c) => {
                                     let r = c.send(&raw).map_err(|e| e.to_string()).and_then(|_| c.read_response(false, Duration::from_secs(4)));
@@ -486,6 +487,11 @@ fn main() {
                             evals += 1;
                             let case = json!({"family": "host-dies-mid-answer", "method": method, "framing": fr, "body": len, "cut": cut, "segment": seg});
                             nontrivial.insert(case.to_string());
+                            // the client sent the request once: the host sees it once, however its answer ended
+                            let seen = w.hosts.ws.requests_since(cur_abort).iter().filter(|(_, m)| m.target() == target).count();
+                            if seen != 1 {
+                                res.violation("request:delivered-more-than-once", &format!("the host died after {cut} of its answer; it received the client's single {method} request {seen} times"), case.clone());
+                            }
                             if let Ok(r) = &resp {
                                 if r.status() == 200 {
                                     res.violation("response:truncated-answer-presented-as-complete", &format!("the host sent {cut} (h = after the head, e = before the end) of a {len}-byte {fr} answer and died; the client received a complete 200 message with a {}-byte body", r.body.len()), case);
@@ -746,10 +752,56 @@ fn main() {
             }
         }
         res.cov("two_clients_one_endpoint_requests", conc_n);
+        // family 10: one connection kept alive for 150 requests one after the other, and 150 more pipelined behind each other
+        let mut long_n = 0u64;
+        {
+            sport = if sport >= 39000 { 36000 } else { sport + 1 };
+            let mut c = w.connect(Some(sport), Some(&rec)).unwrap_or_else(|e| vcommon::result::machinery(&format!("connect: {e}")));
+            let mut bad: Option<String> = None;
+            for k in 0..150 {
+                id += 1;
+                long_n += 1;
+                let t = format!("/long?id={id}&st=200&len=7&fr=cl");
+                match c.send(&build_request("GET", &t, &[("Host", b"h")], None, None)).map_err(|e| e.to_string()).and_then(|_| c.read_response(false, Duration::from_secs(10))) {
+                    Ok(r) if r.status() == 200 && r.body == pattern(7, id) && r.header("connection").map_or(true, |v| !v.eq_ignore_ascii_case("close")) => {}
+                    other => {
+                        bad = Some(format!("request {} of 150 on one kept-alive connection: {:?}", k + 1, other.map(|r| (r.status(), r.body.len(), r.header("connection")))));
+                        break;
+                    }
+                }
+            }
+            if bad.is_none() {
+                let first = id + 1;
+                let mut all = Vec::new();
+                for _ in 0..150 {
+                    id += 1;
+                    long_n += 1;
+                    all.extend_from_slice(&build_request("GET", &format!("/long?id={id}&st=200&len=7&fr=cl"), &[("Host", b"h")], None, None));
+                }
+                let _ = c.send(&all);
+                for k in 0..150u64 {
+                    match c.read_response(false, Duration::from_secs(10)) {
+                        Ok(r) if r.status() == 200 && r.body == pattern(7, first + k) => {}
+                        other => {
+                            bad = Some(format!("response {} of 150 pipelined requests (after 150 earlier ones on the connection): {:?}", k + 1, other.map(|r| (r.status(), r.body.len()))));
+                            break;
+                        }
+                    }
+                }
+            }
+            c.close();
+            evals += 300;
+            let case = json!({"family": "long-lived-connection", "requests": 300});
+            nontrivial.insert(case.to_string());
+            if let Some(b) = bad {
+                res.violation("response:not-the-hosts:long-lived-connection", &b, case);
+            }
+        }
+        res.cov("long_lived_connection_requests", long_n);
         res.cov("host_dies_mid_answer_requests", aborted_n);
         res.cov("exempt_upload_requests", exempt_n);
         res.cov("pipelines", pipelines);
-        res.cov("rule", format!("one request per fresh attributed connection for the product of 5 methods x {} client header sets (repeated names in three spellings, empty value, punctuation, names resembling the proxy-owned ones, connection-management headers, 14 well-known request headers) x {} request body framings (0..102400 bytes, content-length / chunks of 1, 7, 4096 / single chunk) x {} host answers (status 200/204/404/500, body 0/1/70000 bytes covering all byte values, content-length or chunked, TCP segment boundary at 0/1/2/4095/4096/4097), with a key latched and (slice) without; plus {} pipelines of 1-3 back-to-back requests on 1 and 2 concurrent keep-alive connections; plus a SAMPLED family of 300 (1200) back-to-back request pairs on kept-alive connections while the agent's runtime workers are held 0.7 ms at a time; plus three uploads that take 10.8 s in total (4 pieces 3.6 s apart; exempt and signed route, content-length and chunked); plus 30 absolute-form request targets (3 authorities x 5 path/query shapes x 2 methods): path and query unchanged at the host; plus 28 requests whose query merely contains dots / escaped dots or whose head is 8 KiB .. 100 KiB large; plus answers of 0.3 .. 4 (16) MB read by a client that takes 64 KiB every 2 ms through a 16 KiB receive buffer while the proxy is the side that closes (Connection: close, HTTP/1.0); plus two clients of one endpoint on their own kept-alive connections, one leaving with Connection: close / as an HTTP/1.0 client / on the host's Connection: close between two requests of the other; plus answers cut off by the death of the host at 10 offsets (inside the head, 0/1/3/4000/8197 bytes into the body, 8/5/3/1 bytes before the end) x content-length/chunked x 2 sizes, which must not reach the client as a complete message; plus the two signature-exempt uploads with 9 body framings (0 bytes .. 1 MiB, content-length and chunked) x 2 header sets; the host's answer is a function of the request target and echoes the request id", hsets, req_bodies.len(), resps.len(), pipelines));
+        res.cov("rule", format!("one request per fresh attributed connection for the product of 5 methods x {} client header sets (repeated names in three spellings, empty value, punctuation, names resembling the proxy-owned ones, connection-management headers, 14 well-known request headers) x {} request body framings (0..102400 bytes, content-length / chunks of 1, 7, 4096 / single chunk) x {} host answers (status 200/204/404/500, body 0/1/70000 bytes covering all byte values, content-length or chunked, TCP segment boundary at 0/1/2/4095/4096/4097), with a key latched and (slice) without; plus {} pipelines of 1-3 back-to-back requests on 1 and 2 concurrent keep-alive connections; plus a SAMPLED family of 300 (1200) back-to-back request pairs on kept-alive connections while the agent's runtime workers are held 0.7 ms at a time; plus three uploads that take 10.8 s in total (4 pieces 3.6 s apart; exempt and signed route, content-length and chunked); plus 30 absolute-form request targets (3 authorities x 5 path/query shapes x 2 methods): path and query unchanged at the host; plus 28 requests whose query merely contains dots / escaped dots or whose head is 8 KiB .. 100 KiB large; plus answers of 0.3 .. 4 (16) MB read by a client that takes 64 KiB every 2 ms through a 16 KiB receive buffer while the proxy is the side that closes (Connection: close, HTTP/1.0); plus two clients of one endpoint on their own kept-alive connections, one leaving with Connection: close / as an HTTP/1.0 client / on the host's Connection: close between two requests of the other; plus 300 requests on one connection (150 one after the other, 150 pipelined); plus answers cut off by the death of the host at 11 offsets (before the first byte, inside the head, 0/1/3/4000/8197 bytes into the body, 8/5/3/1 bytes before the end) x content-length/chunked x 2 sizes, which must not reach the client as a complete message while the host sees the request exactly once; plus the two signature-exempt uploads with 9 body framings (0 bytes .. 1 MiB, content-length and chunked) x 2 header sets; the host's answer is a function of the request target and echoes the request id", hsets, req_bodies.len(), resps.len(), pipelines));
     } else {
         // ---------------- C15 ----------------
         w.set_key(Some(K1));
